@@ -51,6 +51,7 @@ EQ_POOL = [
     "Fe+3 + H2O = FeOH+2 + H+",
     "2 Fe+3 + 2 H2O = Fe2(OH)2+4 + 2 H+",
     "Fe(CN)6-4 + Ce+4 = Fe(CN)6-3 + Ce+3",
+    "H + O2 + N2 = HO2 + N2",
 ]
 PRECIP_POOL = [
     "NaCl(s) = Na+ + Cl-",
@@ -87,7 +88,7 @@ def kin_systems(tier, seed, max_quick=16, max_thorough=120):
 def eq_systems(tier, seed, precip=False):
     rnd = random.Random(seed + 7)
     pool = EQ_POOL
-    out = [[s] for s in pool[:5]] + [[pool[-1]]]
+    out = [[s] for s in pool[:4]] + [[pool[-2]], [pool[-1]], [pool[11]]]
     combos = []
     for n in (2, 3) if tier == "quick" else (2, 3, 4, 5):
         for _ in range(200):
